@@ -485,7 +485,7 @@ def firstDoubleVote (vs : List (Nat × Nat × Nat)) : Option (Nat × Nat) :=
 
 /-! ### monitors -/
 
-def monC02 (evs : List Ev) : String :=
+def monC02 (learners : List Nat) (evs : List Ev) : String :=
   if !votesOK (votesOf evs) then
     match firstDoubleVote (votesOf evs) with
     | some (n, t) =>
@@ -497,7 +497,10 @@ def monC02 (evs : List Ev) : String :=
     | none => "bad double-vote"
   else
     match (nodesOf evs).find? fun n => !sortedLE (termsOf evs n) with
-    | some n => if hasMarkOn evs n "crash" then "bad term-regressed-after-crash" else "bad term-regressed"
+    | some n =>
+      if hasMarkOn evs n "crash" then "bad term-regressed-after-crash"
+      else if learners.contains n && hasMarkOn evs n "restart" then "bad learner-term-reset-at-restart"
+      else "bad term-regressed"
     | none => "ok"
 
 def monC01 (evs : List Ev) : String :=
@@ -505,7 +508,7 @@ def monC01 (evs : List Ev) : String :=
     (if (leadersOf evs).isEmpty then "skip" else "ok")
   else if hasMark evs "crash" then "bad two-leaders-after-crash"
   else if hasMark evs "sd" then "bad two-leaders-after-same-term-stepdown"
-  else if evs.any (fun | .skip _ v => v != 0 | _ => false) then "bad two-leaders-via-single-node-shortcut"
+  else if evs.any (fun | .skip _ _ => true | _ => false) then "bad two-leaders-via-single-node-shortcut"
   else "bad two-leaders"
 
 def monC03cl (evs : List Ev) : String :=
@@ -513,12 +516,15 @@ def monC03cl (evs : List Ev) : String :=
   if skips.isEmpty then "skip"
   else if skips.all (· == 0) then "ok" else "bad skip-with-other-voters"
 
-def monC31 (evs : List Ev) : String :=
+def monC31 (learners : List Nat) (evs : List Ev) : String :=
   let ps := allPubs evs
   if ps.isEmpty then "skip"
   else
     match (nodesOf evs).find? fun n => !sortedLE (pubTerms (pubsOf evs n)) with
-    | some n => if hasMarkOn evs n "crash" then "bad notified-term-regressed-after-crash" else "bad notified-term-regressed"
+    | some n =>
+      if hasMarkOn evs n "crash" then "bad notified-term-regressed-after-crash"
+      else if learners.contains n && hasMarkOn evs n "restart" then "bad notified-term-regressed-after-learner-restart"
+      else "bad notified-term-regressed"
     | none =>
       let evidence := leadersOf evs ++ claimsOf evs
       if !pubsTruthful ps evidence then "bad notified-leader-never-led-that-term"
@@ -534,10 +540,13 @@ def monitorLine (prop : String) (line : String) : String :=
       match clEvents case out with
       | none => "bad unparsable-output"
       | some evs =>
+        let learners := match parseCl case with
+          | some (hs, _) => (hs.filter (·.learner)).map (·.id)
+          | none => []
         if prop == "C01" then monC01 evs
-        else if prop == "C02" then monC02 evs
+        else if prop == "C02" then monC02 learners evs
         else if prop == "C03" then monC03cl evs
-        else if prop == "C31" then monC31 evs
+        else if prop == "C31" then monC31 learners evs
         else "skip"
     else if case.startsWith "tal " then
       if prop == "C03" then
